@@ -63,7 +63,7 @@ theorem C06_tokens_distinct (s : State) (k k' : KeyId) (h : KeysOk s) (hne : k â
   exact hne this
 
 /-- A connection established by a checkout carries that checkout's origin. -/
-theorem C06_new_conn_origin (s : State) (c : Checkout) (alpn : Bool) :
+theorem C06_new_conn_origin (s : State) (c : Checkout) (alpn : Negotiated) :
     ((newConn s c alpn).1.conns (newConn s c alpn).2).map (Â·.origin) = some c.key := by
   simp [newConn]
 
